@@ -40,6 +40,9 @@ func (fe *FpFieldElement) UnmarshalCBOR(data []byte) error {
 	if err != nil {
 		return errs.Wrap(err).WithMessage("failed to unmarshal base field element")
 	}
+	if dto == nil {
+		return errs.Wrap(serde.ErrNull).WithMessage("failed to unmarshal base field element")
+	}
 
 	bfe, err := newFpField().FromBytes(dto.FieldBytes)
 	if err != nil {
@@ -64,6 +67,9 @@ func (fe *FqFieldElement) UnmarshalCBOR(data []byte) error {
 	dto, err := serde.UnmarshalCBOR[*fqFieldElementDTO](data)
 	if err != nil {
 		return errs.Wrap(err).WithMessage("failed to unmarshal scalar")
+	}
+	if dto == nil {
+		return errs.Wrap(serde.ErrNull).WithMessage("failed to unmarshal scalar")
 	}
 
 	s, err := newFqField().FromBytes(dto.FieldBytes)
@@ -90,6 +96,9 @@ func (p *PallasPoint) UnmarshalCBOR(data []byte) error {
 	if err != nil {
 		return errs.Wrap(err).WithMessage("failed to unmarshal point")
 	}
+	if dto == nil {
+		return errs.Wrap(serde.ErrNull).WithMessage("failed to unmarshal point")
+	}
 
 	pp, err := NewPallasCurve().FromCompressed(dto.AffineCompressedBytes)
 	if err != nil {
@@ -114,6 +123,9 @@ func (p *VestaPoint) UnmarshalCBOR(data []byte) error {
 	dto, err := serde.UnmarshalCBOR[*vestaPointDTO](data)
 	if err != nil {
 		return errs.Wrap(err).WithMessage("failed to unmarshal point")
+	}
+	if dto == nil {
+		return errs.Wrap(serde.ErrNull).WithMessage("failed to unmarshal point")
 	}
 
 	pp, err := NewVestaCurve().FromCompressed(dto.AffineCompressedBytes)
